@@ -190,10 +190,8 @@ Definition apply_call (f : fs) (c : call) : fs :=
   match c with
   | CMkShard a p => mkfs (blobs f) (dom f) ((a, p) :: sdirs f)
   | _ => match call_key c with
-         | Some y => match kstep c (blobs f y) with
-                     | Some v' => mkfs (upd (blobs f) y v') (addk y (dom f)) (sdirs f)
-                     | None => f
-                     end
+         | Some y => mkfs (match kstep c (blobs f y) with Some v' => upd (blobs f) y v' | None => blobs f end)
+                          (addk y (dom f)) (sdirs f)
          | None => f
          end
   end.
@@ -219,12 +217,14 @@ Definition evictable (o : option ment) : bool :=
 
 Inductive out := OOk | ONotExist | OExist | ONoSpace | OErr | OIllegal.
 
-(* Operations. The order in which os.RemoveAll unlinks a directory's files ([ord]) and the blobs
-   ensureFreeSpace evicts ([ev]: the LRU choice, owned by C07/C08) are oracles: the harness fills in
-   what the implementation did, the model checks the choice is legal, theorems quantify over every
-   legal choice. *)
+(* Operations. The order in which os.RemoveAll unlinks a directory's files ([ord]) is an oracle: the
+   harness fills in what the implementation did, the model checks the choice is legal, theorems
+   quantify over every legal choice.  One iteration of ensureFreeSpace's loop (store.go:216-237) is its
+   own step [Evict y sz ord] (sz = the reservation the pending Create asks for); WHICH evictable
+   blob goes first is the LRU policy, owned by C07/C08, and an oracle here. *)
 Inductive op :=
-| Create (x sz : N) (ev : list (N * list fname))
+| Evict (y sz : N) (ord : list fname)
+| Create (x sz : N)
 | WriteAt (x off : N) (data : bytes)                      (* Open + WriteAt + Close *)
 | MarkComplete (x : N)
 | Delete (x : N) (ord : list fname)
@@ -261,33 +261,6 @@ Definition mkdirall (a : area) (p : list N) (sd : list (area * list N)) : list c
 Definition wr (a : area) (x : N) (f : fname) (off : N) (data : bytes) : list call :=
   match data with [] => [] | _ => [CWrite a x f off data] end.
 
-(* store.go:209 ensureFreeSpace *)
-Inductive evres :=
-| EvFit (m : N -> option ment) (ms : N) (cs : list call)
-| EvNoSpace (m : N -> option ment) (ms : N) (cs : list call)
-| EvIllegal.
-Definition ev_cons (cs : list call) (r : evres) : evres :=
-  match r with
-  | EvFit m ms cs' => EvFit m ms (cs ++ cs')
-  | EvNoSpace m ms cs' => EvNoSpace m ms (cs ++ cs')
-  | EvIllegal => EvIllegal
-  end.
-Fixpoint evict (cap sz : N) (dm : list N) (bl : N -> kview) (m : N -> option ment) (ms : N)
-               (ev : list (N * list fname)) : evres :=
-  if ms + sz <=? cap then match ev with [] => EvFit m ms [] | _ => EvIllegal end       (* store.go:210, 216 *)
-  else match ev with
-       | [] => if existsb (fun y => evictable (m y)) dm then EvIllegal else EvNoSpace m ms []   (* store.go:217 *)
-       | (y, ord) :: t =>
-           match m y with
-           | Some e =>
-               if evictable (Some e) && legal_order ord (fst (bl y))
-               then ev_cons (rm_calls AComp y ord (fst (bl y)))                         (* store.go:229 *)
-                            (evict cap sz dm bl (upd m y None) (ms - e_size e) t)       (* store.go:233-236 *)
-               else EvIllegal
-           | None => EvIllegal
-           end
-       end.
-
 (* store.go:299 tryDeleteImmovableMetadata: os.ReadDir is sorted by name *)
 Definition immovables (c : cfg) (d : bdir) : list N :=
   filter (fun s => N.even s && isSome (aget s (d_md d))) (nrange (c_nsfx c)).
@@ -298,31 +271,40 @@ Definition step (c : cfg) (s : state) (o : op) : state * out * list call :=
   let f := disk s in
   let fin (m : N -> option ment) (ms : N) (r : out) (cs : list call) := (mkst m ms (exec cs f), r, cs) in
   match o with
-  | Create x sz ev =>                                                                   (* store.go:158 *)
+  | Evict y sz ord =>                                                                   (* store.go:216-237 *)
+      if msize s + sz <=? c_cap c then (s, OIllegal, [])                                (* loop condition *)
+      else match mem s y with
+           | Some e =>
+               let o := fst (blobs f y) in
+               if evictable (Some e) && legal_order ord o
+               then fin (upd (mem s) y None) (msize s - e_size e) OOk (rm_calls AComp y ord o)
+               else (s, OIllegal, [])
+           | None => (s, OIllegal, [])
+           end
+  | Create x sz =>                                                                      (* store.go:158 *)
       match mem s x with
       | Some _ => (s, OExist, [])
       | None =>
-          match evict (c_cap c) sz (dom f) (blobs f) (mem s) (msize s) ev with
-          | EvIllegal => (s, OIllegal, [])
-          | EvNoSpace m ms cs => fin m ms ONoSpace cs
-          | EvFit m ms cs =>
-              let vi := snd (blobs f x) in
-              let mk := mkdirall AInc (shard_path c x) (sdirs f)
-                        ++ match vi with None => [CMkBlob AInc x] | Some _ => [] end in
-              let d0 := match vi with Some d => d | None => empty_dir end in
-              match d_data d0 with
-              | Some _ => fin m ms OErr (cs ++ mk)                                      (* O_EXCL: store.go:178 *)
-              | None =>
-                  let szc := if c_ri c                                                  (* store.go:183, 199 *)
-                             then match d_sizef d0 with
-                                  | None => COpen AInc x FSize OExcl :: wr AInc x FSize 0 (dec sz)
-                                  | Some _ => []                                        (* fail-open *)
-                                  end
-                             else [] in
-                  fin (set_e m x (mkment sz false false)) (ms + sz) OOk
-                      (cs ++ mk ++ [COpen AInc x FData OExcl] ++ szc)
-              end
-          end
+          if negb (msize s + sz <=? c_cap c)                                            (* store.go:209 *)
+          then if existsb (fun y => evictable (mem s y)) (dom f) then (s, OIllegal, []) (* it would evict *)
+               else (s, ONoSpace, [])                                                   (* store.go:217 *)
+          else
+            let vi := snd (blobs f x) in
+            let mk := mkdirall AInc (shard_path c x) (sdirs f)
+                      ++ match vi with None => [CMkBlob AInc x] | Some _ => [] end in
+            let d0 := match vi with Some d => d | None => empty_dir end in
+            match d_data d0 with
+            | Some _ => fin (mem s) (msize s) OErr mk                                   (* O_EXCL: store.go:178 *)
+            | None =>
+                let szc := if c_ri c                                                    (* store.go:183, 199 *)
+                           then match d_sizef d0 with
+                                | None => COpen AInc x FSize OExcl :: wr AInc x FSize 0 (dec sz)
+                                | Some _ => []                                          (* fail-open *)
+                                end
+                           else [] in
+                fin (set_e (mem s) x (mkment sz false false)) (msize s + sz) OOk
+                    (mk ++ [COpen AInc x FData OExcl] ++ szc)
+            end
       end
   | WriteAt x off data =>                                                               (* store.go:104 Open *)
       match mem s x with
@@ -563,7 +545,7 @@ Definition probe_key (c : cfg) (s : state) (x : N) : state * (bool * bool * bool
                         (st_of r, is_ok (out_of r))
             | None => (s, true)
             end in
-  let r2 := step c (fst r1) (Create x 1 []) in
+  let r2 := step c (fst r1) (Create x 1) in
   let r3 := step c (st_of r2) (MarkComplete x) in
   (st_of r3, (snd r1, is_ok (out_of r2),
               is_ok (out_of r3) && match mem (st_of r3) x with Some e => e_complete e | None => false end)).
@@ -622,8 +604,7 @@ Definition expect (c : cfg) (s : state) (x : N) : kobs :=
 (* keys whose directory the operation is removing *)
 Definition removes (o : op) (x : N) : bool :=
   match o with
-  | Delete y _ => y =? x
-  | Create _ _ ev => existsb (fun p => fst p =? x) ev
+  | Delete y _ | Evict y _ _ => y =? x
   | _ => false
   end.
 Definition md_sub (a b : option bytes) : bool := match a with None => true | Some _ => obytes_eqb a b end.
@@ -702,3 +683,28 @@ Definition C06_check (c : cfg) (ops : list op) (recs : list robs) : bool :=
        | _ => false
        end
   else true.
+
+(* ---------------------------------------------------------------- specification vocabulary of the theorems *)
+(* the calls of a list that act on key y, and their effect on y's directories *)
+Definition touches (y : N) (c : call) : bool := match call_key c with Some k => k =? y | None => false end.
+Definition kapply (v : kview) (c : call) : kview := match kstep c v with Some v' => v' | None => v end.
+Definition kexec (cs : list call) (v : kview) : kview := fold_left kapply cs v.
+
+Definition target (o : op) : N :=
+  match o with
+  | Evict x _ _ | Create x _ | WriteAt x _ _ | MarkComplete x | Delete x _ | Ban x | Unban x
+  | SetMd x _ _ | DelMd x _ | WriteAtMd x _ _ _ => x
+  end.
+
+(* Every state the store can be in: fresh; after a completed operation; after a crash at ANY point
+   of an operation followed by recovery (so histories with any number of crashes are covered). *)
+Inductive reach (c : cfg) : state -> Prop :=
+| reach_init : reach c init
+| reach_step : forall s o, reach c s -> wf_op c s o = true -> reach c (st_of (step c s o))
+| reach_crash : forall s o k s', reach c s -> wf_op c s o = true ->
+                                 recover c (crash c s o k) = Some s' -> reach c s'.
+
+(* what the property says must survive of a blob: its bytes, its eviction ban, its metadata *)
+Definition pub (d : bdir) : option bytes * bool * list (N * bytes) := (d_data d, d_ban d, d_md d).
+Definition dir_of (s : state) (x : N) : option bdir :=
+  match mem s x with Some e => vget (area_of e) (blobs (disk s) x) | None => None end.
